@@ -25,11 +25,18 @@ MOD = "verif_c16_fam"
 NBASE = 3
 CORE_FORMS = ["B", "NT", "TA", "SA", "FI", "CV", "FR"]          # the family of the quantifier (+ ClassVar)
 EXT_FORMS = ["FRNT", "FRTA", "FRSA"]                             # forward references naming the wrappers
-FORMS = CORE_FORMS + EXT_FORMS
+# two-level wrappers: a NewType / alias that only appears after another wrapper has been peeled
+#   FIN = Final[NT], CVN = ClassVar[NT], FIT = Final[TA], TAN = alias of NT, NTA = NewType of TA,
+#   NTAN = NewType of (alias of NT); and the references naming the named ones
+DEEP_FORMS = ["FIN", "CVN", "FIT", "TAN", "NTA", "NTAN"]
+DEEP_REFS = ["FRTAN", "FRNTA", "FRNTAN"]
+FORMS = CORE_FORMS + EXT_FORMS + DEEP_FORMS + DEEP_REFS
+NAMING = {"B": "FR", "NT": "FRNT", "TA": "FRTA", "SA": "FRSA", "TAN": "FRTAN", "NTA": "FRNTA", "NTAN": "FRNTAN"}
 DEFAULT = 7          # the default handed to get(); inserted values start at 10
 NONE_VAL = 0         # get() without default returns None: encoded as value 0
 THEOREMS = ["C16_refines", "C16_keyerror", "C16_stored_found", "C16_lookup_pure",
-            "C16_live_tabs_ok", "C16_instance", "C16_refines_live"]
+            "C16_live_tabs_ok", "C16_instance", "C16_refines_live",
+            "C16_unwrap_reaches_base", "C16_wrapper_finds_base"]
 
 
 # ----------------------------------------------------------------------------------
@@ -44,7 +51,13 @@ def family_source() -> str:
                 f"TA{i} = compat.TypeAliasType('TA{i}', B{i})\n"
                 f"SA{i} = compat.TypeAliasType('SA{i}', 'B{i}')\n"
                 f"FI{i} = typing.Final[B{i}]\n"
-                f"CV{i} = typing.ClassVar[B{i}]\n")
+                f"CV{i} = typing.ClassVar[B{i}]\n"
+                f"FIN{i} = typing.Final[NT{i}]\n"
+                f"CVN{i} = typing.ClassVar[NT{i}]\n"
+                f"FIT{i} = typing.Final[TA{i}]\n"
+                f"TAN{i} = compat.TypeAliasType('TAN{i}', NT{i})\n"
+                f"NTA{i} = typing.NewType('NTA{i}', TA{i})\n"
+                f"NTAN{i} = typing.NewType('NTAN{i}', TAN{i})\n")
     return src
 
 
@@ -75,7 +88,8 @@ class Family:
                     self.is_ref[n] = False
                     # a string-valued alias unwraps to the (unevaluated) reference to the named class
                     self.unwrapped[n] = f"FR{i}" if f == "SA" else f"B{i}"
-                    self.naming_ref[n] = {"B": f"FR{i}", "NT": f"FRNT{i}", "TA": f"FRTA{i}", "SA": f"FRSA{i}"}.get(f)
+                    # whatever the nesting, the unwrapped form of a wrapper of a plain class is that class
+                    self.naming_ref[n] = f"{NAMING[f]}{i}" if f in NAMING else None
         self.core = [n for n in self.names if n.rstrip("0123456789") in CORE_FORMS]
 
     def form(self, n: str) -> str:
@@ -180,6 +194,11 @@ class Tables:
 
     def coq(self) -> str:
         names = "\n".join(f"Definition k_{n} : nat := {i}." for n, i in self.id_of_name.items())
+        fam = family()
+        cat = [f"({self.id_of_name[n]}, {self.id_of_name[fam.unwrapped[n]]})" for n in fam.names
+               if not fam.is_ref[n] and fam.form(n) != "SA"]
+        names += ("\n(* by construction of the family: (wrapper of a plain class at any nesting depth, that class) *)\n"
+                  "Definition catalogue : list (nat * nat) :=\n  " + coq_list(cat, "(nat * nat)") + ".")
         labels = "\n".join(f"   {i}: {l}" for i, l in enumerate(self.label)).replace("(*", "( *").replace("*)", "* )")
         return ("(* generated on this run from the imported typelib: key ids = Python ==/hash classes;\n"
                 "   t_unwrap = inspection.unwrap, t_fref = refs.forwardref, t_isref = isinstance(_, refs.ForwardRef)\n"
@@ -414,6 +433,10 @@ def scenarios(tier: str):
             ("two-bases", ["B0", "NT0", "B1", "NT1", "FR1"], ["set", "item", "get0"], 5),
             ("all-forms", ["B0", "NT0", "TA0", "SA0", "FI0", "CV0", "FR0", "FRNT0", "FRTA0", "FRSA0"],
              ["set", "item"], 4),
+            ("two-level", ["B0", "NT0", "FIN0"], ["set", "item", "get"], 6),
+            ("two-level-alias", ["B0", "TAN0", "NTAN0", "FRTAN0"], ["set", "item"], 6),
+            ("two-level-all", ["B0", "NT0", "TA0", "FIN0", "CVN0", "FIT0", "TAN0", "NTA0", "NTAN0", "FRTAN0",
+                               "FRNTA0", "FRNTAN0"], ["set", "item"], 4),
         ]
     return [
         ("newtype+refs", ["B0", "NT0", "FR0", "FRNT0"], ["set", "item", "get"], 4),
@@ -422,6 +445,9 @@ def scenarios(tier: str):
         ("membership", ["B0", "NT0", "FR0", "SA0"], ["set", "item", "in"], 4),
         ("two-bases", ["B0", "NT0", "B1", "FR1"], ["set", "get0", "in"], 4),
         ("all-forms", ["B0", "NT0", "TA0", "SA0", "FI0", "CV0", "FR0", "FRNT0", "FRTA0", "FRSA0"],
+         ["set", "item"], 3),
+        ("two-level", ["B0", "NT0", "FIN0", "TAN0"], ["set", "item", "get"], 4),
+        ("two-level-all", ["B0", "NT0", "TA0", "FIN0", "CVN0", "FIT0", "TAN0", "NTA0", "NTAN0", "FRTAN0", "FRNTAN0"],
          ["set", "item"], 3),
     ]
 
